@@ -36,6 +36,7 @@ type Term struct {
 	I       int64
 	S       string
 	Name    string // for vars
+	KnownLen int   // for string vars: length fixed by construction (0 = unknown); used to fold str.len
 
 	size    int    // number of nodes (tree size, capped)
 	defName string // name of a define-fun standing for this term (solver session scoped)
@@ -208,6 +209,9 @@ func Eq(a, b *Term) *Term {
 func constLen(t *Term) (int, bool) {
 	if t.IsConst {
 		return len(t.S), true
+	}
+	if t.Op == "var" && t.KnownLen > 0 {
+		return t.KnownLen, true
 	}
 	switch t.Op {
 	case "str.++":
